@@ -7,6 +7,26 @@ PANIC_CALLS = re.compile(r"(^|::)(unwrap|expect|unwrap_err|expect_err)$")
 PANICKING = re.compile(r"core::panicking::|std::rt::begin_panic|std::panicking::|::panic_fmt|::panic$|::unreachable_display|::panic_display|::panic_nounwind|::panic_cannot_unwind")
 
 
+# std / core APIs documented to panic for some arguments (denylist; everything else in std is taken as total, TB-3).
+# The names are matched on the resolved callee path.
+MAY_PANIC = re.compile(r"""(
+    vec::Vec::<[^>]*>::(insert|remove|swap_remove|drain|split_off|splice|extend_from_within|reserve_exact)$
+  | VecDeque::<[^>]*>::(insert|swap|drain|range|split_off)$
+  | <impl\ \[T\]>::(split_at|split_at_mut|swap|copy_from_slice|clone_from_slice|chunks|chunks_mut|chunks_exact|chunks_exact_mut|rchunks|rchunks_mut|rchunks_exact
+                    |windows|rotate_left|rotate_right|select_nth_unstable|select_nth_unstable_by|select_nth_unstable_by_key|copy_within|fill_with|split_first_chunk|as_chunks|repeat)$
+  | string::String::(insert|insert_str|remove|truncate|split_off|drain|replace_range)$
+  | <impl\ str>::(split_at|split_at_mut|repeat)$
+  | iter::Iterator::(step_by|sum|product)$
+  | RefCell::?<[^>]*>::(borrow|borrow_mut|replace|swap|replace_with)$
+  | core::num::<impl\ [a-z0-9]+>::(pow|abs|div_euclid|rem_euclid|next_power_of_two|isqrt|ilog|ilog2|ilog10|div_ceil|next_multiple_of|div_floor|strict_[a-z_]+|unchecked_[a-z_]+)$
+  | char::methods::<impl\ char>::(from_digit|to_digit|is_digit)$
+  | std::process::(exit|abort)$ | std::thread:: | std::sync::.*::(lock|read|write)$
+  | std::time::Instant::(duration_since|elapsed)$ | time::Duration::(from_secs_f32|from_secs_f64|mul_f32|mul_f64|div_f32|div_f64)$
+  | ::(unwrap_unchecked|get_unchecked|get_unchecked_mut|from_utf8_unchecked|unreachable_unchecked|assume_init|transmute)$
+  | std::env::(var|args)$
+)""", re.X)
+
+
 def sites(facts, reach, skip=lambda p: False):
     out = []
     for p in sorted(reach):
@@ -46,7 +66,7 @@ def sites(facts, reach, skip=lambda p: False):
                 elif re.search(r"RefCell<.*>::(borrow|borrow_mut)$", name):
                     kind = "borrow"
                     detail = name
-                elif name.endswith("::split_at") or name.endswith("::swap") or name.endswith("::remove") and "Vec" in name or name.endswith("::insert") and "vec::Vec" in name:
+                elif MAY_PANIC.search(name):
                     kind = "may-panic-call"
                     detail = name
             if kind is None:
